@@ -452,6 +452,7 @@ void EGLPNUM_TYPENAME_ILLprice_init_mpartial_price (
 	p = (pricetype == COL_PRICING) ? &(pinf->pmpinfo) : &(pinf->dmpinfo);
 	p->bsize = 0;
 	i = p->cgroup;
+	if (p->ngroups > 0)						/* nothing to price: no non-basic columns / no rows */
 	do
 	{
 		EGLPNUM_TYPENAME_ILLprice_mpartial_group (lp, p, phase, i, pricetype);
@@ -527,6 +528,7 @@ void EGLPNUM_TYPENAME_ILLprice_update_mpartial_price (
 #endif
 
 	i = p->cgroup;
+	if (p->ngroups > 0)						/* nothing to price: no non-basic columns / no rows */
 	do
 	{
 		EGLPNUM_TYPENAME_ILLprice_mpartial_group (lp, p, phase, i, pricetype);
